@@ -5,7 +5,7 @@ EXTENDS Dispatch, IOUtils
 Trace == ndJsonDeserialize(IOEnv.TRACE)
 VARIABLES l, bad
 
-Conjuncts == {"C06_NoFailure", "C06_Calls", "C06_OnlyPackageLevel", "C06_DefersOnce", "C06_DefersAfterLastCall", "C06_DefersBeforeWrite"}
+Conjuncts == {"C06_NoFailure", "C06_Calls", "C06_CallsNextPackage", "C06_OnlyPackageLevel", "C06_DefersOnce", "C06_DefersAfterLastCall", "C06_DefersBeforeWrite"}
 
 Filter(calls, P(_)) == LET idx == SelectSeq([i \in 1..Len(calls) |-> i], LAMBDA i : P(calls[i])) IN [k \in 1..Len(idx) |-> calls[idx[k]]]
 Proj(calls) == [i \in 1..Len(calls) |-> [kind |-> calls[i].kind, gen |-> calls[i].gen, type |-> calls[i].type]]
@@ -16,11 +16,18 @@ GenId(n) == IF n = "a" THEN "a" ELSE IF n = "ab" THEN "ab" ELSE "acb"
 Holds(c, r) ==
     LET o == r.obs
         cs == r.case
-        tc == Filter(o.calls, LAMBDA x : x.kind \in {"type", "alias"})
+        tc == Filter(o.calls, LAMBDA x : x.kind \in {"type", "alias"} /\ x.pkg = "d")
+        te == Filter(o.calls, LAMBDA x : x.kind \in {"type", "alias"} /\ x.pkg = "e")
         df == Filter(o.calls, LAMBDA x : x.kind = "defer")
         want == ExpectedCalls(cs.gens, 1, cs.globals, cs.pkgtags)
     IN CASE c = "C06_NoFailure" -> ~o.failed /\ ~o.died /\ o.panic = ""
          [] c = "C06_Calls" -> [i \in 1..Len(tc) |-> [kind |-> tc[i].kind, gen |-> GenId(tc[i].gen), type |-> tc[i].type]] = want
+         (* the package generated next in the same run has the same declarations and no package-level tags: its decisions are
+            those of the globals and the declarations alone, and nothing of d's reaches it *)
+         [] c = "C06_CallsNextPackage" ->
+               /\ [i \in 1..Len(te) |-> [kind |-> te[i].kind, gen |-> GenId(te[i].gen), type |-> te[i].type]] = ExpectedCalls(cs.gens, 1, cs.globals, <<>>)
+               /\ \A i \in 1..Len(o.calls) : o.calls[i].pkg \in {"d", "e"}
+               /\ \A i \in 1..Len(o.calls) : \A j \in 1..Len(o.calls) : (o.calls[i].pkg = "d" /\ o.calls[j].pkg = "e") => i < j
          [] c = "C06_OnlyPackageLevel" -> \A i \in 1..Len(tc) : tc[i].obj_kind = (IF tc[i].kind = "alias" THEN "pkgscope-alias" ELSE "pkgscope-defined")
          (* every registered deferred callback ran exactly once: the harness registers one for each call whose planned
             behaviour is render_defer*, and a nested one from inside the callback of D01's *)
@@ -28,12 +35,14 @@ Holds(c, r) ==
                \A i \in 1..Len(tc) :
                   LET n == Cardinality({j \in 1..Len(df) : df[j].gen = tc[i].gen /\ df[j].type = tc[i].type})
                       nn == Cardinality({j \in 1..Len(df) : df[j].gen = tc[i].gen /\ df[j].type = tc[i].type \o "/nested"})
+                      n2 == Cardinality({j \in 1..Len(df) : df[j].gen = tc[i].gen /\ df[j].type = tc[i].type \o "/nested2"})
                   IN /\ n = (IF tc[i].type \in {"D01", "D02", "D05", "D06", "D13", "D14", "D25", "D26"} THEN 1 ELSE 0)
                      /\ nn = (IF tc[i].type \in {"D01", "D05", "D13", "D25"} THEN 1 ELSE 0)
+                     /\ n2 = (IF tc[i].type = "D01" THEN 1 ELSE 0)
          (* ... after the package's last GenerateType / GenerateAliasType of that generator *)
          [] c = "C06_DefersAfterLastCall" ->
                \A i \in 1..Len(o.calls) : \A j \in 1..Len(o.calls) :
-                  (o.calls[i].kind = "defer" /\ o.calls[j].kind \in {"type", "alias"} /\ o.calls[i].gen = o.calls[j].gen) => j < i
+                  (o.calls[i].kind = "defer" /\ o.calls[j].kind \in {"type", "alias"} /\ o.calls[i].gen = o.calls[j].gen /\ o.calls[i].pkg = o.calls[j].pkg) => j < i
          (* ... and before the generator's file is written *)
          [] c = "C06_DefersBeforeWrite" -> \A i \in 1..Len(df) : df[i].own_same
 
